@@ -142,7 +142,10 @@ Clients == AuthClients \cup OtherClients \cup MixedClients
 
 MalClasses == {"empty", "short1", "short2", "nob64", "b64rand", "b64trunc", "oversize", "mixed", "dup", "badindex",
                "nontls", "dropAfterHello", "dropMidHello", "silentClose", "wrappedShort", "hugeEntry", "prefOnly",
-               "clientAlert", "resetMidHello", "resetAfterHello", "flipUndecodable", "rawSslv2", "rawOversizeRecord", "rawHttp", "rawBadVersion"}
+               "clientAlert", "resetMidHello", "resetAfterHello", "flipUndecodable", "rawSslv2", "rawOversizeRecord", "rawHttp", "rawBadVersion",
+               \* a peer that keeps its handshake open (sending nothing / part of a record header / a whole ClientHello) for
+               \* several seconds while an honest node dials, then goes away
+               "stallSilent", "stallPartial", "stallAfterHello"}
 MalPrefixes == {"fetch", "auth", "pref"}
 
 (***************************************************************************)
